@@ -139,6 +139,8 @@ def execute(run):
             st = '|'.join([cfg['type'], str(d), str(cfg['trunc']),
                            ''.join(map(str, sorted(deg.values())))])
             ctx.states.add(st)
+            fams = ''.join(vinelib.fam_of(e)[0] for t in vine.trees for e in t.edges)
+            ctx.shape.append(st + '|' + fams)
             ctx.event('fit', cfg, p, 'ok', sig)
         if len(sigs) >= 2 and any(s != sigs[0] for s in sigs[1:]):
             # reported only: "same structure under every content" is C19's clause
